@@ -44,6 +44,10 @@ def tree_hash() -> str:
     return h.hexdigest()
 
 
+INV_PROP = {"ConnectedFlag": {"C05"}, "StopAtMostOnce": {"C07"}, "StopOnlyIfConnected": {"C07"}, "StopWhenClosedAfterConnected": {"C07"},
+            "Released": {"C08"}, "ReleasedAtRest": {"C08"}, "ClassifiedErrors": {"C09"}, "ForwardOnly": {"C05"}, "ClosedFinal": {"C05"}, "Silent": {"C08"}}
+
+
 # ------------------------------------------------------------- TLC schedules
 def tokens_to_schedule(tokens: list) -> list:
     sch: list = []
@@ -175,33 +179,21 @@ def run_family(ctx, name: str, cases: list) -> dict:
         traces.append(connsim.run_schedule(cfg, sch, seed=ctx.seed * 1000003 + i))
     findings = []
     rows_total = sum(len(t["rows"]) for t in traces)
-    batch = 3000
-    for off in range(0, len(traces), batch):
-        part = traces[off : off + batch]
-        f = ctx.tmp / f"conn-{name}-{off}.json"
-        f.write_text(json.dumps(part))
-        r = ctx.tlc("TraceConnection", workers=1, env={"TRACE_FILE": str(f)}, timeout=3000)
-        if "Model checking completed" not in r.stdout:
-            raise TLCFailure("trace validation did not complete:\n" + r.stdout[-3000:])
-        f.unlink()
-        rej = [(int(a) - 1, int(b)) for a, b in re.findall(r'<<"REJECT", (\d+), (\d+)>>', r.stdout)]
-        diags = {(d[0] - 1, d[1]): d[2] for d in tlaval.extract_printed(r.stdout, "DIAG")}
-        ctx.traces_validated += len(part)
-        for idx, line in rej:
-            t = part[idx]
-            props, fields = attribute(diags.get((idx, line), []), t["rows"], line)
-            row = t["rows"][line - 1] if line - 1 < len(t["rows"]) else {}
-            findings.append(
-                {
-                    "props": sorted(props),
-                    "fields": fields,
-                    "cause": row.get("c"),
-                    "cfg": t["cfg"],
-                    "schedule": cases[off + idx][1],
-                    "line": line,
-                    "rows": t["rows"][max(0, line - 8) : line],
-                }
-            )
+    from vf import tracecheck
+
+    res = tracecheck.run_batch(ctx, "TraceConnection", traces, batch=3000, tag=name)
+    for idx, line in res["rejected"]:
+        t = traces[idx]
+        props, fields = attribute(res["diags"].get((idx, line), []), t["rows"], line)
+        row = t["rows"][line - 1] if line - 1 < len(t["rows"]) else {}
+        findings.append({"props": sorted(props), "fields": fields, "cause": row.get("c"), "cfg": t["cfg"], "schedule": cases[idx][1], "line": line,
+                         "rows": t["rows"][max(0, line - 8) : line]})
+    for idx, invname in res["invariant"]:
+        t = traces[idx]
+        findings.append({"props": sorted(INV_PROP.get(invname, {"C05", "C07", "C08", "C09"})), "fields": ["invariant:" + invname], "cause": "invariant", "cfg": t["cfg"],
+                         "schedule": cases[idx][1], "line": 0, "rows": t["rows"][-8:]})
+    if True:
+        part, off = traces, 0
         # wire-format complaints of the independent device decoder belong to C02
         for idx, t in enumerate(part):
             if t.get("format_errors"):
